@@ -106,11 +106,12 @@ type Sim struct {
 	maxParked    int
 	coins        int
 	// PCT
-	changeAt map[int]bool
-	lowPrio  int
-	victim   int
-	policy   int
-	pools    []*Pool
+	changeAt  map[int]bool
+	lowPrio   int
+	victim    int
+	starveMod int
+	policy    int
+	pools     []*Pool
 }
 
 var cur *Sim
@@ -491,7 +492,9 @@ func Run(cfg Config, root func()) Result {
 		}
 		s.lowPrio = 999
 	case PolStarve:
-		s.victim = s.tape.Choose(12)
+		// one task in twelve, or one in four, is only run when nothing else can
+		s.starveMod = []int{12, 12, 4}[s.tape.Choose(3)]
+		s.victim = s.tape.Choose(s.starveMod)
 	}
 	curMu.Lock()
 	cur = s
@@ -659,7 +662,7 @@ func (s *Sim) choose(ids []int) int {
 	case PolStarve:
 		cand := make([]int, 0, len(ids))
 		for _, id := range ids {
-			if id%12 != s.victim {
+			if id%s.starveMod != s.victim {
 				cand = append(cand, id)
 			}
 		}
